@@ -153,4 +153,256 @@ theorem cholCheck_sound (A L : Mat) (d : Vec) (h : cholCheck A L d = true) :
 
 example : cholCheck [[4, 2], [2, 5]] [[1, 0], [1/2, 1]] [4, 4] = true := by decide +kernel
 
+/-- **LU uniqueness — the bridge from SuperLU's contract to the model:** if a symmetric `A` is factored
+    `A = L·U` with `L` unit lower triangular and `U` upper triangular (what `splu` returns when no
+    rows were exchanged), then necessarily `U = diag(U_ii)·Lᵀ`, i.e. `A = L·diag(U_ii)·Lᵀ`: the pair
+    `(LU.L, LU.U.diagonal())` that `sparse_cholesky` reads off IS an `(L, d)` pair in the sense of
+    `ldl_cert` / `cholCheck`, whatever algorithm produced the factorisation. -/
+theorem lu_symm_unique {n : ℕ} (A L U : Matrix (Fin n) (Fin n) ℝ)
+    (hA : Aᵀ = A) (hLU : L * U = A)
+    (hL : ∀ i j, i < j → L i j = 0) (hL1 : ∀ i, L i i = 1)
+    (hU : ∀ i j, j < i → U i j = 0) :
+    U = diagonal (fun i => U i i) * Lᵀ ∧ L * diagonal (fun i => U i i) * Lᵀ = A := by
+  have hLtri : L.BlockTriangular OrderDual.toDual := fun i j h => hL i j (by simpa using h)
+  have hUtri : U.BlockTriangular id := fun i j h => hU i j h
+  have hdetL : L.det = 1 := by rw [det_of_isLowerTriangular L hLtri]; simp [hL1]
+  have huL : IsUnit L.det := by rw [hdetL]; exact isUnit_one
+  have huLt : IsUnit Lᵀ.det := by rw [det_transpose]; exact huL
+  let _ : Invertible L := Matrix.invertibleOfIsUnitDet L huL
+  let _ : Invertible Lᵀ := Matrix.invertibleOfIsUnitDet Lᵀ huLt
+  have hLinv : L⁻¹.BlockTriangular OrderDual.toDual := blockTriangular_inv_of_blockTriangular hLtri
+  have hLttri : Lᵀ.BlockTriangular id := fun i j h => hL j i h
+  have hLtinv : Lᵀ⁻¹.BlockTriangular id := blockTriangular_inv_of_blockTriangular hLttri
+  have hUttri : Uᵀ.BlockTriangular OrderDual.toDual := fun i j h => hU j i (by simpa using h)
+  -- the symmetric identity
+  have hsym : L * U = Uᵀ * Lᵀ := by
+    rw [hLU, ← hA, ← hLU, transpose_mul]
+  have hM1 : U * Lᵀ⁻¹ = L⁻¹ * Uᵀ := by
+    calc U * Lᵀ⁻¹ = L⁻¹ * (L * U) * Lᵀ⁻¹ := by
+            rw [← Matrix.mul_assoc, nonsing_inv_mul _ huL, Matrix.one_mul]
+      _ = L⁻¹ * (Uᵀ * Lᵀ) * Lᵀ⁻¹ := by rw [hsym]
+      _ = L⁻¹ * Uᵀ := by
+            rw [Matrix.mul_assoc, Matrix.mul_assoc, mul_nonsing_inv _ huLt, Matrix.mul_one]
+  have hMlow : (L⁻¹ * Uᵀ).BlockTriangular OrderDual.toDual := hLinv.mul hUttri
+  have hMup : (U * Lᵀ⁻¹).BlockTriangular id := hUtri.mul hLtinv
+  have hMdiag : U * Lᵀ⁻¹ = diagonal (fun i => (U * Lᵀ⁻¹) i i) := by
+    ext i j
+    rcases lt_trichotomy i j with h | h | h
+    · rw [diagonal_apply_ne _ (ne_of_lt h), hM1]
+      exact hMlow (by simpa using h)
+    · subst h; rw [diagonal_apply_eq]
+    · rw [diagonal_apply_ne _ (ne_of_gt h)]
+      exact hMup h
+  have hUM : U = diagonal (fun i => (U * Lᵀ⁻¹) i i) * Lᵀ := by
+    rw [← hMdiag, Matrix.mul_assoc, nonsing_inv_mul _ huLt, Matrix.mul_one]
+  have hdiag : ∀ i, (U * Lᵀ⁻¹) i i = U i i := by
+    intro i
+    have := congrFun (congrFun hUM i) i
+    rw [diagonal_mul, transpose_apply, hL1, mul_one] at this
+    exact this.symm
+  have hfin : U = diagonal (fun i => U i i) * Lᵀ := by
+    have : (fun i => (U * Lᵀ⁻¹) i i) = fun i => U i i := funext hdiag
+    rw [this] at hUM; exact hUM
+  refine ⟨hfin, ?_⟩
+  rw [Matrix.mul_assoc, ← hfin, hLU]
+
+example : (!![4, 2; 0, 4] : Matrix (Fin 2) (Fin 2) ℝ)
+    = diagonal (fun i => (!![4, 2; 0, 4] : Matrix (Fin 2) (Fin 2) ℝ) i i) * (!![1, 0; 1/2, 1] : Matrix (Fin 2) (Fin 2) ℝ)ᵀ :=
+  (lu_symm_unique !![4, 2; 2, 5] !![1, 0; 1/2, 1] !![4, 2; 0, 4]
+    (by ext i j; fin_cases i <;> fin_cases j <;> simp)
+    (by ext i j; fin_cases i <;> fin_cases j <;> simp [Matrix.mul_apply, Fin.sum_univ_two] <;> norm_num)
+    (by intro i j h; fin_cases i <;> fin_cases j <;> simp_all)
+    (by intro i; fin_cases i <;> simp)
+    (by intro i j h; fin_cases i <;> fin_cases j <;> simp_all)).1
+
+/-- **`sparse_cholesky` returns a square root (`sparse_cholesky_cert`):** for symmetric `A = L·U` as
+    above with `U_ii > 0` (the function's acceptance test), the returned `(L·diag(√U_ii))ᵀ` is upper
+    triangular with positive diagonal, `RᵀR = A`, `2·Σ log R_ii = log det A`, and `A` is positive definite. -/
+theorem sparse_cholesky_cert {n : ℕ} (A L U : Matrix (Fin n) (Fin n) ℝ)
+    (hA : Aᵀ = A) (hLU : L * U = A)
+    (hL : ∀ i j, i < j → L i j = 0) (hL1 : ∀ i, L i i = 1)
+    (hU : ∀ i j, j < i → U i j = 0) (hpos : ∀ i, 0 < U i i) :
+    (∀ i j, j < i → (L * diagonal (fun i => Real.sqrt (U i i)))ᵀ i j = 0)
+      ∧ (∀ i, 0 < (L * diagonal (fun i => Real.sqrt (U i i)))ᵀ i i)
+      ∧ (L * diagonal (fun i => Real.sqrt (U i i)))ᵀᵀ * (L * diagonal (fun i => Real.sqrt (U i i)))ᵀ = A
+      ∧ 2 * ∑ i, Real.log ((L * diagonal (fun i => Real.sqrt (U i i)))ᵀ i i) = Real.log A.det
+      ∧ A.PosDef := by
+  have hR : (L * diagonal (fun i => Real.sqrt (U i i)))ᵀ = diagonal (fun i => Real.sqrt (U i i)) * Lᵀ := by
+    rw [transpose_mul, diagonal_transpose]
+  obtain ⟨h1, h2, h3, _, h5, _, h7⟩ :=
+    ldl_cert A L (fun i => U i i) hL hL1 hpos (lu_symm_unique A L U hA hLU hL hL1 hU).2
+  rw [hR]
+  exact ⟨h1, fun i => by rw [h2]; exact Real.sqrt_pos.2 (hpos i), h3, h5, h7⟩
+
+example : (!![4, 2; 2, 5] : Matrix (Fin 2) (Fin 2) ℝ).PosDef :=
+  (sparse_cholesky_cert !![4, 2; 2, 5] !![1, 0; 1/2, 1] !![4, 2; 0, 4]
+    (by ext i j; fin_cases i <;> fin_cases j <;> simp)
+    (by ext i j; fin_cases i <;> fin_cases j <;> simp [Matrix.mul_apply, Fin.sum_univ_two] <;> norm_num)
+    (by intro i j h; fin_cases i <;> fin_cases j <;> simp_all)
+    (by intro i; fin_cases i <;> simp)
+    (by intro i j h; fin_cases i <;> fin_cases j <;> simp_all)
+    (by intro i; fin_cases i <;> simp)).2.2.2.2
+
+/-- **`GMRF._sample`, zero boundary — the draw has precision `prec·P`:** with `R` the factor
+    (`RᵀR = A`, invertible), `s = mean + prec^(-1/2)·R⁻¹ξ` is `mean + Wξ` with
+    `W·Wᵀ = (prec·A)⁻¹`; and `W ξ` is the unique solution of `R·(√prec · y) = ξ` — the equation the
+    model's back substitution solves exactly (`backSubst`, certificate `backCheck`). -/
+theorem sample_precision {n : ℕ} (A R : Matrix (Fin n) (Fin n) ℝ) (δ : ℝ) (hδ : 0 < δ)
+    (hR : Rᵀ * R = A) (hdet : R.det ≠ 0) :
+    ((Real.sqrt δ)⁻¹ • R⁻¹) * ((Real.sqrt δ)⁻¹ • R⁻¹)ᵀ = (δ • A)⁻¹
+      ∧ ∀ xi : Fin n → ℝ, R.mulVec (Real.sqrt δ • ((Real.sqrt δ)⁻¹ • R⁻¹).mulVec xi) = xi := by
+  have hu : IsUnit R.det := isUnit_iff_ne_zero.2 hdet
+  have hut : IsUnit Rᵀ.det := by rw [det_transpose]; exact hu
+  have hs : Real.sqrt δ ≠ 0 := (Real.sqrt_pos.2 hδ).ne'
+  have hss : (Real.sqrt δ)⁻¹ * (Real.sqrt δ)⁻¹ * δ = 1 := by
+    have : Real.sqrt δ * Real.sqrt δ = δ := Real.mul_self_sqrt hδ.le
+    field_simp; rw [sq]; exact this.symm
+  constructor
+  · symm
+    apply Matrix.inv_eq_left_inv
+    rw [transpose_smul, transpose_nonsing_inv]
+    simp only [Matrix.smul_mul, Matrix.mul_smul, smul_smul]
+    rw [← hR, Matrix.mul_assoc, ← Matrix.mul_assoc (Rᵀ⁻¹),
+      nonsing_inv_mul _ hut, Matrix.one_mul, nonsing_inv_mul _ hu]
+    have : δ * ((Real.sqrt δ)⁻¹ * (Real.sqrt δ)⁻¹) = 1 := by rw [mul_comm]; exact hss
+    rw [this, one_smul]
+  · intro xi
+    rw [Matrix.smul_mulVec, smul_smul, mul_inv_cancel₀ hs, one_smul, Matrix.mulVec_mulVec,
+      mul_nonsing_inv _ hu, Matrix.one_mulVec]
+
+example : ((Real.sqrt 4)⁻¹ • (1 : Matrix (Fin 2) (Fin 2) ℝ)⁻¹) * ((Real.sqrt 4)⁻¹ • (1 : Matrix (Fin 2) (Fin 2) ℝ)⁻¹)ᵀ
+    = ((4 : ℝ) • (1 : Matrix (Fin 2) (Fin 2) ℝ))⁻¹ :=
+  (sample_precision 1 1 4 (by norm_num) (by simp) (by simp)).1
+
+/-- real-valued copies of the closed form -/
+noncomputable def ellR (i j : ℕ) : ℝ := if i = j then 1 else if i = j + 1 then -((j : ℝ) + 1) / ((j : ℝ) + 2) else 0
+noncomputable def delR (j : ℕ) : ℝ := ((j : ℝ) + 2) / ((j : ℝ) + 1)
+
+lemma ellR_cast (i j : ℕ) : ((tridiagL i j : ℚ) : ℝ) = ellR i j := by
+  unfold tridiagL ellR; split_ifs <;> push_cast <;> ring
+lemma delR_cast (j : ℕ) : ((tridiagD j : ℚ) : ℝ) = delR j := by
+  unfold tridiagD delR; push_cast; ring
+
+lemma sum_two (f : ℕ → ℝ) (n i : ℕ) (hi : i < n)
+    (h0 : ∀ k, k ≠ i → k + 1 ≠ i → f k = 0) :
+    ∑ k ∈ range n, f k = f i + (if 1 ≤ i then f (i - 1) else 0) := by
+  by_cases h : 1 ≤ i
+  · rw [if_pos h]
+    refine Finset.sum_eq_add i (i - 1) (by omega) ?_ ?_ ?_
+    · intro c _ hc; exact h0 c hc.1 (by omega)
+    · intro hn; exact absurd (mem_range.2 hi) hn
+    · intro hn; exact absurd (mem_range.2 (by omega)) hn
+  · rw [if_neg h, add_zero]
+    refine Finset.sum_eq_single i ?_ ?_
+    · intro c _ hc; exact h0 c hc (by omega)
+    · intro hn; exact absurd (mem_range.2 hi) hn
+
+lemma ldl_entry (n i j : ℕ) (hi : i < n) (hj : j < n) :
+    ∑ k ∈ range n, ellR i k * delR k * ellR j k
+      = if i = j then 2 else if i + 1 = j ∨ j + 1 = i then -1 else 0 := by
+  rw [sum_two _ n i hi (fun k h1 h2 => by
+    have : ellR i k = 0 := by unfold ellR; rw [if_neg (Ne.symm h1), if_neg (fun h => h2 h.symm)]
+    rw [this]; ring)]
+  have hii : ellR i i = 1 := by unfold ellR; simp
+  rcases Nat.eq_zero_or_pos i with h0 | hpos
+  · subst h0
+    simp only [show ¬ (1 ≤ 0) by omega, if_false, add_zero, hii, one_mul]
+    unfold ellR delR
+    rcases Nat.eq_zero_or_pos j with hj0 | hjp
+    · subst hj0; simp
+    · by_cases hj1 : j = 1
+      · subst hj1; simp; norm_num
+      · have h1 : ¬ (j = 0) := by omega
+        have h2 : ¬ (0 = j) := by omega
+        have h3 : ¬ (0 + 1 = j ∨ j + 1 = 0) := by omega
+        have h4 : ¬ (1 = j) := by omega
+        simp [h1, h2, h4, hj1]
+  · obtain ⟨m, rfl⟩ : ∃ m, i = m + 1 := ⟨i - 1, by omega⟩
+    simp only [show 1 ≤ m + 1 by omega, if_true, Nat.add_sub_cancel, hii, one_mul]
+    have hm1 : ellR (m + 1) m = -((m : ℝ) + 1) / ((m : ℝ) + 2) := by unfold ellR; simp
+    rw [hm1]
+    have hp1 : ((m : ℝ) + 1) ≠ 0 := by positivity
+    have hp2 : ((m : ℝ) + 2) ≠ 0 := by positivity
+    have hp3 : ((m : ℝ) + 1 + 1) ≠ 0 := by positivity
+    have hp4 : ((m : ℝ) + 1 + 2) ≠ 0 := by positivity
+    by_cases c1 : j = m + 1
+    · subst c1
+      rw [hii, hm1, if_pos rfl]; unfold delR; push_cast; field_simp; ring
+    · by_cases c2 : j = m + 2
+      · subst c2
+        have e1 : ellR (m + 2) (m + 1) = -(((m + 1 : ℕ) : ℝ) + 1) / (((m + 1 : ℕ) : ℝ) + 2) := by unfold ellR; simp
+        have e2 : ellR (m + 2) m = 0 := by unfold ellR; simp
+        rw [e1, e2, if_neg (by omega), if_pos (Or.inl (by omega))]; unfold delR; push_cast; field_simp; ring
+      · by_cases c3 : j = m
+        · subst c3
+          have e1 : ellR j (j + 1) = 0 := by unfold ellR; rw [if_neg (by omega), if_neg (by omega)]
+          have e2 : ellR j j = 1 := by unfold ellR; simp
+          rw [e1, e2, if_neg (by omega), if_pos (Or.inr rfl)]; unfold delR; field_simp; ring
+        · have e1 : ellR j (m + 1) = 0 := by
+            unfold ellR; rw [if_neg c1, if_neg (by omega)]
+          have e2 : ellR j m = 0 := by
+            unfold ellR; rw [if_neg c3, if_neg (by omega)]
+          rw [e1, e2, if_neg (by omega), if_neg (by omega)]; ring
+
+/-- entries of `tridiag(-1, 2, -1)` as built by the model -/
+lemma gram_firstOrder_zero_entry (n i j : ℕ) (hi : i < n) :
+    (gram (firstOrder .zero n)).e i j
+      = if i = j then 2 else if i + 1 = j ∨ j + 1 = i then -1 else 0 := by
+  rw [gram_entry]
+  have hrows : (firstOrder .zero n).rows = n + 1 := rfl
+  rw [hrows, Finset.sum_eq_add i (i + 1) (by omega)
+    (fun c _ hc => by
+      rw [firstOrder_zero_entry, if_neg (fun h => hc.1 h.symm), if_neg (fun h => hc.2 h.symm)]; ring)
+    (fun hn => absurd (mem_range.2 (by omega)) hn)
+    (fun hn => absurd (mem_range.2 (by omega)) hn)]
+  simp only [firstOrder_zero_entry]
+  split_ifs <;> omega
+
+/-- **Closed-form factor of the 1-D first-order zero-boundary precision, every size:**
+    with `L_ij = [i=j] − [i=j+1]·(j+1)/(j+2)` and `d_j = (j+2)/(j+1)` (`tridiagL`, `tridiagD` of the model, which the
+    driver compares with the elimination on every run), `L·diag(d)·Lᵀ` IS the precision `gram (firstOrder .zero n)`
+    (= `tridiag(-1, 2, -1)`). -/
+theorem ldl_order1_zero (n : ℕ) :
+    (Matrix.of fun i j : Fin n => ((tridiagL i j : ℚ) : ℝ))
+        * diagonal (fun i : Fin n => ((tridiagD i : ℚ) : ℝ))
+        * (Matrix.of fun i j : Fin n => ((tridiagL i j : ℚ) : ℝ))ᵀ
+      = Matrix.of fun i j : Fin n => (((gram (firstOrder .zero n)).e i j : ℤ) : ℝ) := by
+  ext i j
+  rw [Matrix.mul_apply]
+  simp only [Matrix.mul_diagonal, Matrix.of_apply, Matrix.transpose_apply, ellR_cast, delR_cast]
+  rw [Fin.sum_univ_eq_sum_range (fun k => ellR i k * delR k * ellR j k) n,
+    ldl_entry n i j i.2 j.2, gram_firstOrder_zero_entry n i j i.2]
+  split_ifs <;> simp
+
+example : (gram (firstOrder .zero 4)).e 2 3 = -1 := by decide
+
+/-- **`det P = n + 1`, `log det P = log (n + 1)`, `P` positive definite — every `n`:** the
+    `_logdet` a zero-boundary first-order 1-D GMRF must report (and, by `ldl_cert`, what
+    `2·Σ log chol_ii` gives for the closed-form factor). -/
+theorem det_precision_order1_zero (n : ℕ) :
+    (Matrix.of fun i j : Fin n => (((gram (firstOrder .zero n)).e i j : ℤ) : ℝ)).det = (n : ℝ) + 1
+      ∧ Real.log (Matrix.of fun i j : Fin n => (((gram (firstOrder .zero n)).e i j : ℤ) : ℝ)).det
+          = Real.log ((n : ℝ) + 1)
+      ∧ (Matrix.of fun i j : Fin n => (((gram (firstOrder .zero n)).e i j : ℤ) : ℝ)).PosDef := by
+  have hcert := ldl_cert _ (Matrix.of fun i j : Fin n => ((tridiagL i j : ℚ) : ℝ))
+    (fun i : Fin n => ((tridiagD i : ℚ) : ℝ))
+    (fun i j hij => by
+      have h1 : (i : ℕ) ≠ j := fun h => (ne_of_lt hij) (Fin.ext h)
+      have h2 : (i : ℕ) ≠ (j : ℕ) + 1 := by have : (i : ℕ) < j := hij; omega
+      simp [Matrix.of_apply, tridiagL, h1, h2])
+    (fun i => by simp [Matrix.of_apply, tridiagL])
+    (fun i => by exact_mod_cast (tridiagD_prod 0).1 i)
+    (ldl_order1_zero n)
+  have hdet := hcert.2.2.2.1
+  have hprod : ∏ i : Fin n, ((tridiagD i : ℚ) : ℝ) = (n : ℝ) + 1 := by
+    rw [Fin.prod_univ_eq_prod_range (fun k => ((tridiagD k : ℚ) : ℝ)) n]
+    have := congrArg (fun q : ℚ => (q : ℝ)) (tridiagD_prod n).2.1
+    simpa using this
+  rw [hprod] at hdet
+  exact ⟨hdet, by rw [hdet], hcert.2.2.2.2.2.2⟩
+
+
+example : (Matrix.of fun i j : Fin 3 => (((gram (firstOrder .zero 3)).e i j : ℤ) : ℝ)).det = 4 := by
+  have := (det_precision_order1_zero 3).1; norm_num at this ⊢; exact this
+
 end CuqiVerif.C20
